@@ -320,3 +320,17 @@ func (p *RelaxPP) PostProcessProperties(props []*component_definition.Property, 
 	}
 	return nil, nil
 }
+
+// QualPP is a user post-processor (merely ordered, behind the built-in processors, created before the
+// refresh) whose own injection points need narrowing like anybody else's.
+type QualPP struct {
+	processors.DefaultComponentPostProcessor
+	One  IA   `wire:",qualifier=G1,required=false"`
+	Prim IA   `wire:",required=false"`
+	Many []IA `wire:",qualifier=G1 g2,required=false"`
+	OneB IB   `wire:",required=false"`
+	AllC []IC `wire:",required=false"`
+}
+
+func (p *QualPP) Naming() string { return "verif.qualpp" }
+func (p *QualPP) Order() int     { return 100 }
